@@ -303,6 +303,15 @@ class Scheduler:
                 return True
             if not self.step(allow_time):
                 return pred()
+        # A busy loop: the last 240 gate labels are periodic (period <= 30) although no timer was allowed to
+        # fire - with deterministic stubs the server is spinning without progress, which is a verdict about the
+        # code and not a harness limit.  Anything else that exceeds the bound stays a harness error.
+        tr = self.trace[-240:]
+        if len(tr) == 240:
+            for p in range(1, 31):
+                if all(tr[i] == tr[i - p] for i in range(p, 240)):
+                    engine().prove(False, 'the server spins: the same daemon calls / jobs repeat for ever without '
+                                          'progress and without waiting', {'signature': 'livelock', 'cycle': tr[-p:]})
         raise RuntimeError('run_until: bound exceeded: ' + ' | '.join(self.trace[-12:]))
 
     def only_timers_pending(self):
